@@ -659,7 +659,10 @@ func runC19(c *rt.Ctx) {
 
 	// long uninstrumented run: state that is reset, wraps or falls into a cycle after very many draws. It runs
 	// beside the race children (one busy core); its verdict is taken at the end.
-	longN := c.Pick(640000000, 3200000000)
+	longN := int64(640000000) // int64: the thorough count does not fit a 32-bit int (the 386 platform pass compiles this file too)
+	if !c.Quick() {
+		longN = 3200000000
+	}
 	var longRes c19Result
 	var longErr, longJErr error
 	var longStderr string
@@ -749,7 +752,7 @@ func runC19(c *rt.Ctx) {
 			w.ClassN("long-run-draws", int64(res.Draws))
 			w.Sample("long-run", map[string]any{"draws": res.Draws, "ids_kept_for_duplicate_detection": res.Distinct, "duplicates": res.Duplicates})
 		})
-		c.Require("long-run-draws", int64(longN)*9/10)
+		c.Require("long-run-draws", longN*9/10)
 		c.Serial("gc-churn", func(w *rt.W) {
 			args := rt.Args("mode", "two IDs, two garbage collections, repeated; GOMAXPROCS 1; every ID kept", "rounds", churnRounds)
 			if churnErr != nil {
